@@ -4,7 +4,7 @@
     Operation [99] is the final drop of the object: its result is what the harness measures
     while dropping ([keys dropped; values dropped; double drops; live tracked objects; live
     heap blocks allocated by the object; poison damage]). *)
-From VF Require Import Base Iter Enc Lru LruStep Slru TwoQ Arc CacheStep Tiny WTiny Sampled TinyStep Sizing Heap HeapStep Fault FaultStep.
+From VF Require Import Base Iter Enc Lru LruStep Slru TwoQ Arc CacheStep Tiny WTiny Sampled TinyStep Sizing Heap HeapStep Fault FaultStep HeapSlruDef HeapSlruStep.
 Open Scope Z_scope.
 
 Inductive ustate :=
@@ -19,7 +19,8 @@ Inductive ustate :=
 | UPutRes
 | UCtor
 | UHeap (s : hstate)
-| UFault (s : fstate).
+| UFault (s : fstate)
+| UHSlru (s : hsstate).
 
 Definition uinit (kind : Z) (cfg : list Z) : option ustate :=
   match kind with
@@ -34,6 +35,7 @@ Definition uinit (kind : Z) (cfg : list Z) : option ustate :=
   | 8 => Some UCtor
   | 9 => option_map UHeap (hinit cfg)
   | 10 => option_map UFault (finit cfg)
+  | 11 => option_map UHSlru (hsinit cfg)
   | _ => None
   end.
 
@@ -52,6 +54,7 @@ Definition uretained (s : ustate) : nat :=
   | UCtor => 0%nat
   | UHeap s => hretained s
   | UFault s => fretained s
+  | UHSlru s => hsretained s
   end.
 
 (** tracked objects that are alive but in no node (lost by a panic in user code): kind 10 only *)
@@ -96,7 +99,7 @@ Definition putres_step (op : list Z) : option (ustate * list Z * list Z) :=
 
 Definition ustep (s : ustate) (op : list Z) : option (ustate * list Z * list Z) :=
   match op with
-  | [99] => Some (UDead, match s with UHeap hs => hdrop_out hs | UFault fs => fdrop_out fs | _ => drop_out (uretained s) end, [0])
+  | [99] => Some (UDead, match s with UHeap hs => hdrop_out hs | UFault fs => fdrop_out fs | UHSlru hs => hsdrop_out hs | _ => drop_out (uretained s) end, [0])
   | _ =>
     match s with
     | UDead => None
@@ -111,6 +114,7 @@ Definition ustep (s : ustate) (op : list Z) : option (ustate * list Z * list Z) 
     | UCtor => match ctor_step op with Some out => Some (UCtor, out, [0]) | None => None end
     | UHeap s => lift UHeap (hstep_enc s op)
     | UFault s => lift UFault (fstep_enc s op)
+    | UHSlru s => lift UHSlru (hsstep_enc s op)
     end
   end.
 
@@ -128,4 +132,5 @@ Definition usnap (s : ustate) : list Z :=
   | UCtor => []
   | UHeap s => hsnap s
   | UFault s => fsnap s
+  | UHSlru s => hssnap s
   end.
